@@ -65,7 +65,10 @@ func (r *recConn) EnqueueOutFrag(f *core.Frag) {
 // ---------- topology / config ----------
 
 type simTopo struct {
-	pools  []struct{ addr string; slave bool }
+	pools []struct {
+		addr  string
+		slave bool
+	}
 	ranges []struct {
 		lo, hi int
 		master string
@@ -127,7 +130,10 @@ func parseTopo(s string) (*simTopo, error) {
 			if err != nil || len(f) != 3 {
 				return nil, fmt.Errorf("bad pool")
 			}
-			t.pools = append(t.pools, struct{ addr string; slave bool }{string(a), f[2] != "0"})
+			t.pools = append(t.pools, struct {
+				addr  string
+				slave bool
+			}{string(a), f[2] != "0"})
 		case "R":
 			if len(f) != 5 {
 				return nil, fmt.Errorf("bad range")
@@ -251,14 +257,15 @@ func fakeReply(args [][]byte) []byte {
 // ---------- one execution ----------
 
 type simReq struct {
-	args      [][]byte
-	typ       codec.Command
-	local     bool     // answered by the proxy itself at decode time
-	keys      [][]byte // keys whose fragments must be answered
-	pending   map[string]int
-	failed    bool // an error / timeout / close completed it
-	lost      bool // ... because its backend connection was lost or a redirect named an unknown node (C15)
-	rejected  bool
+	args     [][]byte
+	typ      codec.Command
+	local    bool     // answered by the proxy itself at decode time
+	keys     [][]byte // keys whose fragments must be answered
+	pending  map[string]int
+	failed   bool // an error / timeout / close completed it
+	lost     bool // ... because its backend connection was lost or a redirect named an unknown node (C15)
+	notok    bool // a node answered an MSET fragment with a status other than OK (C07)
+	rejected bool
 }
 
 type simClientState struct {
@@ -286,7 +293,7 @@ type simRun struct {
 	backends []*simBackendState
 	enq      []enqRec
 	redirs   []redirRec // every MOVED / ASK reply given, for the C13 oracle
-	model    []string // concrete events for the Lean model
+	model    []string   // concrete events for the Lean model
 	snaps    []string
 	fails    []string
 	tags     map[string]bool
@@ -604,6 +611,14 @@ func (r *simRun) backendEvent(j int, kind string, arg string) {
 	case "big":
 		n, _ := strconv.Atoi(arg)
 		reply = bulkOf(bytes.Repeat([]byte("x"), n))
+	case "notok":
+		// a status that is not OK: only meaningful for MSET fragments, anything else is answered normally
+		if name == "mset" {
+			reply = []byte("+QUEUED\r\n")
+		} else {
+			kind = "ok"
+			reply = fakeReply(cmd)
+		}
 	case "nullarr":
 		reply = []byte("*-1\r\n")
 		if name == "mget" || name == "del" || name == "mset" {
@@ -690,9 +705,12 @@ func (r *simRun) noteAnswered(j int, cmd [][]byte, kind string, reply []byte) {
 		}
 		q := r.clients[ci].reqs[ri]
 		switch kind {
-		case "ok", "nullarr":
+		case "ok", "nullarr", "notok":
 			if q.pending[string(k)] > 0 {
 				q.pending[string(k)]--
+			}
+			if kind == "notok" {
+				q.notok = true
 			}
 		case "moved", "ask":
 			// stays pending: it will be re-sent
@@ -790,7 +808,7 @@ func (r *simRun) acceptable(q *simReq, reply []byte) bool {
 	case codec.ReqDel:
 		return bytes.Equal(reply, fakeReply(q.args))
 	case codec.ReqMset:
-		return string(reply) == "+OK\r\n"
+		return string(reply) == "+OK\r\n" && !q.notok
 	}
 	if q.local {
 		return false
@@ -820,7 +838,9 @@ func (r *simRun) checkClients(after string) {
 						own = true
 					}
 				}
-				if own {
+				if c.reqs[i].notok && string(rp) == "+OK\r\n" {
+					r.fail("C07: client %d, request %d %q was answered +OK although a node answered one of its fragments with a status other than OK (%s)", ci, i, clip(encodeCmd(c.reqs[i].args)), after)
+				} else if own {
 					r.fail("C01: client %d, reply %d is %q, which answers another of its requests, not request %d %q (%s)", ci, i, clip(rp), i, clip(encodeCmd(c.reqs[i].args)), after)
 				} else {
 					r.fail("C03: client %d, reply %d is %q, which is not a reply to its request %q (%s)", ci, i, clip(rp), clip(encodeCmd(c.reqs[i].args)), after)
